@@ -201,6 +201,20 @@ func genC01Field(g *gen, f fieldAPI) {
 		g.emit("C01 %s vsum %s", n, hexList(a))
 		g.emit("C01 %s vinner %s %s", n, hexList(a), hexList(b))
 	}
+	// operand lengths that differ: every path must panic (documented), whatever the kernel/generic dispatch
+	for _, ll := range [][2]int{{0, 1}, {1, 0}, {3, 4}, {16, 17}, {17, 16}, {0, 16}, {32, 0}} {
+		mkl := func(l int) []*big.Int {
+			v := make([]*big.Int, l)
+			for i := range v {
+				v[i] = pick()
+			}
+			return v
+		}
+		a, b := mkl(ll[0]), mkl(ll[1])
+		for _, op := range []string{"vadd", "vsub", "vmul", "vinner"} {
+			g.emit("C01 %s %s %s %s", n, op, hexList(a), hexList(b))
+		}
+	}
 	if g.thorough() {
 		for _, l := range []int{255, 256, 257, 511, 512, 513, 1023, 1024, 1025, 4099} {
 			v := make([]*big.Int, l)
